@@ -271,6 +271,10 @@ impl Check for C03 {
         let reps: Vec<usize> = if ctx.tier == Tier::Thorough { vec![1_000, 20_000, 200_000] } else { vec![1_000, 20_000] };
         let mut n_pump = 0u64;
         for u in units {
+            let mut reps = reps.clone();
+            if ctx.tier == Tier::Thorough && ["\n", ";", "# c\n"].contains(&u) {
+                reps.push(4_000_000);
+            }
             for &n in &reps {
                 let body: String = u.repeat(n);
                 for (pre, post) in [("print(\"S\")\n", "\nprint(\"E\")\n"), ("print(\"S\")\nx := 1", "\n"), ("print(\"S\")\n", "\n)\n"), ("print(\"S\")\n", "\n&")] {
